@@ -319,7 +319,7 @@ def one_history(run, sc, i, length):
     interesting = False
     for step, op in enumerate(ops):
         case["history"].append(op)
-        run.case({"graph": i, "step": step, "op": op}, nontrivial=False, tag="op:" + op["k"])
+        run.case({"graph": i, "step": step, "op": op}, nontrivial=step > 0, tag="op:" + op["k"])
         if op["k"] == "write" and (op["new_version"] is not None or not op["outgoing"]):
             interesting = True
         out, problems = apply(G, op, sc)
